@@ -292,13 +292,13 @@ theorem filterMap_slack (g : String → Option (Ext K)) : ∀ (C : List String) 
 /-- **`as_lp_solution` on a name list of the shape `kept ++ split pairs ++ slacks`**: kept variables keep name and
 value, every split pair is recombined into `v = p − m`, slack columns disappear. -/
 theorem asLp_closed (A F C : List String) (a pmu c : List K) (hA : A.length = a.length)
-    (hpm : pmu.length = 2 * F.length) (hAp : ∀ v ∈ A, plain v = true) (hFp : ∀ v ∈ F, plain v = true)
+    (hpm : pmu.length = 2 * F.length) (hAp : ∀ v ∈ A, plain v = true)
     (hFn : F.Nodup) (hC : ∀ n ∈ C, isSlackName n = true) :
     asLpAssignment (A ++ (F.flatMap pmN ++ C)) ((a ++ (pmu ++ c)).map Ext.fin) =
       ((List.zip A a).map fun p => (p.1, Val.real (Ext.fin p.2))) ++ diffs (triples F pmu) := by
   have hBl : (F.flatMap pmN).length = (pmu.map Ext.fin).length := by
     rw [List.length_map, hpm]
-    clear hFp hFn hpm
+    clear hFn hpm
     induction F with
     | nil => rfl
     | cons v F ih => simp [pmN] at ih ⊢; omega
@@ -505,11 +505,13 @@ theorem standardize_vars (lm : LinModel (Ext K)) (hW : WF lm) {s : StdModel (Ext
     List.drop_zero, pairs_pmN]
 
 /-- **`as_lp_solution` computes C13's map back.**  For a well-formed `lm` whose variable names are pairwise distinct and
-carry none of the internal prefixes, its standard form `s` and ANY value vector `y` with one value per column of `s`:
+carry none of the internal prefixes WHERE IT MATTERS — only the variables that are kept as one column (the non-free ones,
+`keep (flags lm) lm.vars`) need a `plain` name; a free variable `v` only occurs as `$p‹v›` / `$m‹v›` and may be called
+anything —, its standard form `s` and ANY value vector `y` with one value per column of `s`:
 the assignment `asLpAssignment s.vars y` names every variable of `lm` exactly once (a permutation of `lm.vars`) and the
 first-match lookup of the `i`-th variable returns the `i`-th component of `preimage lm y`. -/
-theorem asLp_standardize (lm : LinModel (Ext K)) (hW : WF lm) (hnd : lm.vars.Nodup)
-    (hpl : ∀ v ∈ lm.vars, plain v = true) {s : StdModel (Ext K)} (hs : standardize lm = .ok s)
+theorem asLp_standardize_kept (lm : LinModel (Ext K)) (hW : WF lm) (hnd : lm.vars.Nodup)
+    (hpl : ∀ v ∈ keep (flags lm) lm.vars, plain v = true) {s : StdModel (Ext K)} (hs : standardize lm = .ok s)
     (y : List K) (hy : y.length = s.vars.length) :
     ((asLpAssignment s.vars (y.map Ext.fin)).map (·.1)).Perm lm.vars ∧
     ∀ i (hi : i < lm.vars.length),
@@ -539,7 +541,7 @@ theorem asLp_standardize (lm : LinModel (Ext K)) (hW : WF lm) (hnd : lm.vars.Nod
   have hpml : pmu.length = 2 * countT fl := by rw [hpmu, List.length_take, List.length_drop]; omega
   have hpre : preimage lm y = back fl ku pmu := rfl
   have hclosed := asLp_closed (keep fl V) (freeOf fl V) names ku pmu sl (by rw [hkl, hkul]) (by rw [hpml, hFl])
-    (fun v hv' => hpl v ((keep_sublist fl V).subset hv')) (fun v hv' => hpl v ((freeOf_sublist fl V).subset hv'))
+    (fun v hv' => hpl v hv')
     ((freeOf_sublist fl V).nodup hnd) hnames
   rw [← hv, ← hysplit] at hclosed
   have hperm := closed_perm_back fl V ku pmu hVl hkul hpml
@@ -559,6 +561,16 @@ theorem asLp_standardize (lm : LinModel (Ext K)) (hW : WF lm) (hnd : lm.vars.Nod
   rw [List.getElem_zip]
   have hib : i < (preimage lm y).length := by rw [hbl]; exact hi
   simp [List.getD_eq_getElem?_getD, hib]
+
+/-- the same under the simpler (stronger) hypothesis that every variable name is `plain`. -/
+theorem asLp_standardize (lm : LinModel (Ext K)) (hW : WF lm) (hnd : lm.vars.Nodup)
+    (hpl : ∀ v ∈ lm.vars, plain v = true) {s : StdModel (Ext K)} (hs : standardize lm = .ok s)
+    (y : List K) (hy : y.length = s.vars.length) :
+    ((asLpAssignment s.vars (y.map Ext.fin)).map (·.1)).Perm lm.vars ∧
+    ∀ i (hi : i < lm.vars.length),
+      (asLpAssignment s.vars (y.map Ext.fin)).find? (fun p => p.1 == lm.vars[i]) =
+        some (lm.vars[i], Val.real (Ext.fin ((preimage lm y).getD i 0))) :=
+  asLp_standardize_kept lm hW hnd (fun v hv => hpl v ((keep_sublist _ _).subset hv)) hs y hy
 
 end Std
 
